@@ -343,6 +343,22 @@ fn run_history<'de, R: lexpr::parse::Read<'de>>(mut p: Parser<R>, api: &str) -> 
         let mut it = rest.split(':');
         let op = it.next().unwrap().as_bytes()[0];
         let cap: usize = it.next().unwrap().parse().unwrap();
+        if op == b'i' || op == b'j' {
+            // ONE iterator object kept for the whole iteration (what `for x in parser.value_iter()` does)
+            let r = catch_unwind(AssertUnwindSafe(|| {
+                let mut items = Vec::new();
+                if op == b'i' {
+                    let mut vi = p.value_iter();
+                    for _ in 0..cap { let s = item_value(vi.next().transpose()); let done = s == "none"; items.push(s); if done { break; } }
+                } else {
+                    let mut di = p.datum_iter();
+                    for _ in 0..cap { let s = item_datum(di.next().transpose()); let done = s == "none"; items.push(s); if done { break; } }
+                }
+                items
+            }));
+            match r { Ok(items) => out.extend(items), Err(_) => out.push("panic".into()) }
+            return out;
+        }
         for _ in 0..cap {
             let r = catch_unwind(AssertUnwindSafe(|| step(&mut p, op)));
             match r {
